@@ -23,6 +23,7 @@ import (
 	peer_store "github.com/anacrolix/dht/v2/peer-store"
 	"github.com/anacrolix/torrent/iplist"
 	"github.com/anacrolix/torrent/metainfo"
+	"golang.org/x/time/rate"
 )
 
 const tokenBaseNs = int64(1_700_000_100) * 1e9 // multiple of the 5 minute interval
@@ -115,6 +116,8 @@ type srvOpts struct {
 	root       *[20]byte
 	publicIP   net.IP
 	mute       bool
+	waitToReply bool
+	limiter    *rate.Limiter
 }
 
 type srvScen struct {
@@ -167,6 +170,10 @@ func (r *Run) newSrvScen(o srvOpts) *srvScen {
 	}
 	if o.publicIP != nil {
 		cfg.PublicIP = o.publicIP
+	}
+	cfg.WaitToReply = o.waitToReply
+	if o.limiter != nil {
+		cfg.SendLimiter = o.limiter
 	}
 	if o.hook {
 		cfg.OnQuery = func(q *krpc.Msg, src net.Addr) bool {
